@@ -30,7 +30,8 @@ META = {
     "outside": ["code paths that contain no hand-written rule (log-densities of a given factor, losses built on them) are "
                 "differentiated by JAX alone and are not re-derived", "exactly singular points (zero covariance): derivatives there are one-sided / conventions (issue #668)",
                 "NaN propagation in reverse mode (floating point)", "adaptive solves (stop_gradient through dt is intentional)",
-                "dynamic calibration with stop_gradient_through_calibration=True (intentional)"],
+                "dynamic calibration: stop_gradient_through_calibration=True is intentional; the =False configuration is encoded "
+                "but its obligation is not decided within budget and is therefore not claimed"],
 }
 
 
@@ -40,14 +41,18 @@ def cases(tier):
         out += [f"marginalise/{ssm}/d1", f"revert/{ssm}/d1", f"std/{ssm}/d1", f"rms/{ssm}/d1"]
     for ssm in cm.SSMS:
         out += [f"step/{ssm}/none/ts0"]
+        # (step/{ssm}/dynamic_nostop/ts0 -- tangent of the dynamic scale with stop_gradient_through_calibration=False -- is
+        #  implemented below and refutes a suppressed gradient, but its proof on the unchanged tree (degree 8-14) is not found
+        #  within 10 minutes, so it is not part of either tier)
     if tier == "thorough":
         out += ["rule/3x3", "marginalise/isotropic/d2", "revert/blockdiag/d2"]
         out += [f"step/{ssm}/mle/ts1" for ssm in cm.SSMS]
     return out
 
 
-def _directions(dom, args, prefix="D"):
-    """for every symbolic input entry a direction symbol; returns (tangent pytree, {var id: direction poly})"""
+def _directions(dom, args, prefix="D", only=None):
+    """for every symbolic input entry (or only those whose name starts with one of `only`) a direction symbol; returns
+    (tangent pytree, {var id: direction poly})"""
     import jax
     leaves, treedef = jax.tree_util.tree_flatten(args)
     dirs = {}
@@ -59,6 +64,9 @@ def _directions(dom, args, prefix="D"):
                 p = a[idx]
                 if len(p.t) == 1 and list(p.t.values())[0] == 1 and len(list(p.t)[0]) == 1 and list(p.t)[0][0][1] == 1:
                     v = list(p.t)[0][0][0]
+                    if only is not None and not any(P.NAMES[v].startswith(o) for o in only):
+                        t[idx] = Poly()
+                        continue
                     if v not in dirs:
                         dirs[v] = dom.input(prefix + P.NAMES[v])
                     t[idx] = dirs[v]
@@ -97,7 +105,7 @@ def _fd(f, theta, direction, h=1e-3):
     return [(4 * (a2 - b2) / h - (a1 - b1) / (2 * h)) / 3 for a1, b1, a2, b2 in zip(p1, m1, p2, m2)]
 
 
-def make_case(name, build_theta, f, labels):
+def make_case(name, build_theta, f, labels, only=None):
     """generic: theta = build_theta(dom) (pytree of symbolic arrays), f(theta) -> tuple of arrays"""
     state = {}
 
@@ -106,7 +114,7 @@ def make_case(name, build_theta, f, labels):
         dom.want_q = True
         dom.symbolic_sign_preds = True
         theta = build_theta(dom)
-        direction, dirs = _directions(dom, theta)
+        direction, dirs = _directions(dom, theta, only=only)
         state["dirs"] = dirs
 
         def fn(theta, direction):
@@ -199,24 +207,40 @@ def build(case_id):
     if kind == "step":
         calib, lin = parts[2], parts[3]
         d = 1
-        cfg = sc.Cfg(ssm=ssm, q=1, d=d, order=1, lin=lin, calib=calib, strategy="filter", damp="zero")
+        cfg = sc.Cfg(ssm=ssm, q=1, d=d, order=1, lin=lin, calib=("dynamic" if calib == "dynamic_nostop" else calib),
+                     strategy="filter", damp="zero")
 
         def theta(dom):
             co_c = {k: np.ones(s_) for k, s_ in (("c", (d,)), ("C", (d, d)), ("e", (d,)), ("g", (d,)))}
             solver_t, _, _ = sc.make_solver(cfg, co_c)
             prior_c = sc.concrete_prior(cfg)
-            prior_s, pinfo = sc.sym_prior(dom, cfg, prior_c, base_scale=(np.ones(()) if ssm == "isotropic" else np.ones((d,))))
+            if calib == "dynamic_nostop":
+                prior_s = prior_c       # concrete prior: keeps the degree of the scale obligation within reach
+            else:
+                prior_s, pinfo = sc.sym_prior(dom, cfg, prior_c, base_scale=(np.ones(()) if ssm == "isotropic" else np.ones((d,))))
             st, sinfo = sc.sym_state(dom, cfg, solver_t, prior_s)
             h = sym_array(dom, "h", (), unit=True)
-            co = sc.field_coeffs(dom, d, 1, degree=(2 if lin == "ts0" else 1))     # independent symbols only
+            deg = 2 if (lin == "ts0" and calib != "dynamic_nostop") else 1
+            co = sc.field_coeffs(dom, d, 1, degree=deg)     # independent symbols only
             return {"state": st, "h": h, "co": co}
 
         def f(th):
-            solver, _, _ = sc.make_solver(cfg, th["co"])
+            solver, _, con = sc.make_solver(cfg, th["co"])
+            if calib == "dynamic_nostop":
+                from probdiffeq import probdiffeq
+                solver = probdiffeq.solver_dynamic(strategy=probdiffeq.strategy_filter(), constraint=con,
+                                                   stop_gradient_through_calibration=False)
+                o = solver.step(th["state"], dt=th["h"], damp=0.0)
+                import jax.numpy as jnp
+                return (jnp.ravel(o.output_scale) ** 2,)
             o = solver.step(th["state"], dt=th["h"], damp=0.0)
             outs = [o.u.mean_flat, _gram(ssm, o.u.cholesky_flat)]
             return tuple(outs)
         labels = ["the posterior mean", "the posterior covariance"]
+        if calib == "dynamic_nostop":
+            labels = ["the dynamic output scale (squared), stop_gradient_through_calibration=False"]
+            # direction restricted to the vector-field coefficients (ODE parameters): keeps the obligation within reach
+            return make_case(case_id, theta, f, labels, only=("c0", "cC", "ct"))
         return make_case(case_id, theta, f, labels)
     raise KeyError(case_id)
 
@@ -230,7 +254,8 @@ def _gram(ssm, L):
 
 def _case(case_id, tier):
     make, goals = build(case_id)
-    return PCase("C16/" + case_id, make, goals, budget_s=200 if tier == "quick" else 1200, exact_timeout_ms=4000)
+    return PCase("C16/" + case_id, make, goals, budget_s=200 if tier == "quick" else 1200, exact_timeout_ms=4000,
+                 dce=("dynamic_nostop" in case_id))
 
 
 def run_case(case_id, tier="quick", seed=0, replay_dir=None, log=print):
